@@ -18,6 +18,22 @@ def _json_out(cmd, out_path, timeout=7200, env=None):
     return json.load(open(out_path))
 
 
+def _guarded(agg, fn, *a, **k):
+    """Runs one leg; a machinery failure is remembered instead of raised, so that it cannot take the verdicts of the
+    other legs with it. _settle() re-raises the first one if, in the end, no leg found a violation."""
+    try:
+        return fn(*a, **k)
+    except MachineryError as e:
+        agg.setdefault("leg_failures", []).append(str(e))
+        log("a leg failed for machinery reasons: %s" % str(e)[:300])
+        return None
+
+
+def _settle(agg):
+    if agg.get("leg_failures") and not agg["violations"]:
+        raise MachineryError(agg["leg_failures"][0])
+
+
 def _workfile(name):
     d = os.path.join(WORK, "out")
     os.makedirs(d, exist_ok=True)
@@ -322,7 +338,7 @@ def check_px(pid, tier, seed, t0):
         # the same decorated/twin pairs with predicates that are real `--cfg` flags: one compilation per truth vector
         runs += list(range(8))
     for flags in runs:
-        for v in px_conformance(agg, pid, tier, cfgflags=flags):
+        for v in (_guarded(agg, px_conformance, agg, pid, tier, cfgflags=flags) or []):
             rec = dict(v, engine="px+rustc", history=None, extra={"program": v["program"], "cfg_flags": flags})
             if v["prop"] == pid:
                 agg["violations"].append(rec)
@@ -334,7 +350,8 @@ def check_px(pid, tier, seed, t0):
         "C15": "all declarations of 1..k archetypes (and 1..k components) each with an explicit id from {none,0,1,2,254,255} and a cfg-disabled flag, plus all mixed two-archetype/two-component id assignments, are run through the REAL DataWorld::new and compared with the discriminant fold; a systematic stride is compiled with the real rustc (constants, ecs_component_id!, handle ids, SelectArchetype over all 256 ids; ill-formed ones must fail with the right diagnostic); non-trivial = declarations with >= 2 enabled items or that must be rejected",
         "C16": "all assignments of {none,p0,p1,p2} to the six decoration sites of a 2x2 declaration (x id variants) x all truth vectors, and all parameter lists (x decorations x truth vectors x five generators) are run through the real code and compared (a) with the reference 'delete disabled items' and (b) differentially with the undecorated twin (token-identical expansion after cfg-stripping); decorated/twin module pairs with >= 2 distinct predicates of mixed truth are compiled and executed with the real rustc (this exercises the generated cfg-probing macro chain); non-trivial = cases with >= 2 predicates of mixed truth",
     }[pid]
-    wx_into(agg, pid, tier)
+    _guarded(agg, wx_into, agg, pid, tier)
+    _settle(agg)
     return finish_generic(pid, tier, seed, "exploration", agg, t0)
 
 
@@ -403,10 +420,11 @@ def check_c03(tier, seed, t0):
     import main as M
     agg = M.check_hx("C03", tier, seed)
     agg.setdefault("evaluations", 0)
-    kx_leg(agg, "c03", "boundary", "chk", "C03")
-    kx_leg(agg, "c03", "boundary" if tier == "quick" else "full", "rel", "C03")
+    _guarded(agg, kx_leg, agg, "c03", "boundary", "chk", "C03")
+    _guarded(agg, kx_leg, agg, "c03", "boundary" if tier == "quick" else "full", "rel", "C03")
     # the boundary sweep once more under AddressSanitizer (no debug assertions): silent out-of-bounds reads become process deaths
-    kx_leg(agg, "c03", "boundary", "rel", "C03", san="asan")
+    _guarded(agg, kx_leg, agg, "c03", "boundary", "rel", "C03", san="asan")
+    _settle(agg)
     if not agg["violations"]:
         if agg.get("unconfirmed"):
             raise MachineryError("violations were observed that do not replay deterministically, and nothing else was found: " + " | ".join(agg["unconfirmed"][:3]))
@@ -429,6 +447,17 @@ def check_c19(tier, seed, t0):
     per_config = []
     for feats, profile in configs:
         t1 = time.time()
+        if feats:
+            # a feature combination under which the library itself no longer compiles (while the default configuration does)
+            try:
+                build("kx", profile, feats)
+            except BuildFailed as e:
+                if getattr(e, "in_library", False):
+                    agg["violations"].append({"prop": "C19", "oracle": "configuration-does-not-build[%s %s]" % (profile, ",".join(feats)), "engine": "mx", "history": None,
+                                              "msg": "gecs does not compile with features %s: %s" % (list(feats), " / ".join(l for l in e.tail.splitlines() if l.startswith("error"))[:600]),
+                                              "extra": {"program": "cargo build --features %s" % ",".join(feats)}})
+                    continue
+                raise
         legs = [props.hx_leg("SA", profile=profile, features=feats, L=3, D=7, props=["C01", "C02", "C04", "C06", "C07", "C08", "C09", "C12", "C14"] + (["C03"] if profile == "rel" else []) + (["C17"] if "events" in feats else [])),
                 props.hx_leg("SE", profile=profile, features=feats, props=["C08", "C10", "C01", "C04", "C12"] + (["C17"] if "events" in feats else [])),
                 props.hx_leg("SF", profile=profile, features=feats, props=["C10", "C01", "C04", "C12"] + (["C17"] if "events" in feats else []))]
